@@ -48,7 +48,7 @@ Section Spec.
     (* the signing call of entity ks *)
     ks : key; typ : string; val : string; rs : string; alg : option string; sgn : bool;
     (* the verification call: parameters presented, certificate used, the verifier's own key *)
-    q : query; vc : option cert; own : key
+    q : query; vc : certarg cert; own : key
   }.
   Definition output := (sres * vres)%type.
 
@@ -66,13 +66,16 @@ Section Spec.
        (* for every message, RelayState and allowed algorithm a URL with exactly these parameters comes out *)
        /\ (dirtyp (typ x) -> forall a, alg x = Some a -> In a spec_allowed ->
              exists args sg, fst o = SArgs args /\ dict_eq args (honest_args x a sg))
-       /\ (forall args c, fst o = SArgs args -> vc x = Some c ->
+       /\ (forall args c, fst o = SArgs args -> vc x = CCert c ->
              (* the URL as produced verifies under the signer's certificate and under no other *)
              (same_on keys5 (q x) args -> (snd o = VTrue <-> c = cert_of (ks x)))
              (* whatever verifies under the signer's certificate has the four parameters unchanged *)
              /\ (c = cert_of (ks x) -> snd o = VTrue -> same_on (keys4 x) (q x) args)))
     (* an unsupported SigAlg is never treated as verified *)
-    /\ (forall a, get (q x) K_ALG = Some a -> ~ supported a -> snd o <> VTrue).
+    /\ (forall a, get (q x) K_ALG = Some a -> ~ supported a -> snd o <> VTrue)
+    (* "or under any other entity's key": octets that are not a certificate are nobody's key, in particular not
+       the signer's - nothing verifies under them, whatever is presented and whoever verifies *)
+    /\ (vc x = CUnreadable -> snd o <> VTrue).
 
   (* ------------------------------------------------------------- boolean version *)
   Variable cert_eqb : cert -> cert -> bool.
@@ -103,7 +106,7 @@ Section Spec.
             | None => true
             end)
         && match fst o, vc x with
-           | SArgs args, Some c =>
+           | SArgs args, CCert c =>
                (negb (same_on_b keys5 (q x) args) || Bool.eqb (vres_eqb (snd o) VTrue) (cert_eqb c (cert_of (ks x))))
                && (negb (cert_eqb c (cert_of (ks x))) || negb (vres_eqb (snd o) VTrue)
                    || same_on_b (keys4 x) (q x) args)
@@ -112,17 +115,19 @@ Section Spec.
     && match get (q x) K_ALG with
        | Some a => mem a (map fst signer_algs) || negb (vres_eqb (snd o) VTrue)
        | None => true
-       end.
+       end
+    && match vc x with CUnreadable => negb (vres_eqb (snd o) VTrue) | _ => true end.
 
   (* ------------------------------------------------------------- the modelled run of one input *)
   Definition model (x : input) : output :=
     (http_redirect_message sign (ks x) (typ x) (val x) (rs x) (alg x) (sgn x),
-     verify_redirect_signature cert_of verify (own x) (q x) (vc x)).
+     verify_redirect_signature_c cert_of verify (own x) (q x) (vc x)).
 
   (* the pinned snapshot (lenient decoding of the Signature parameter), kept for c15_f1_v0_refuted *)
   Definition model_v0 (x : input) : output :=
     (http_redirect_message sign (ks x) (typ x) (val x) (rs x) (alg x) (sgn x),
-     verify_redirect_signature_v0 cert_of verify (own x) (q x) (vc x)).
+     verify_redirect_signature_v0 cert_of verify (own x) (q x)
+       (match vc x with CCert c => Some c | _ => None end)).
 End Spec.
 
 Arguments input : clear implicits.
